@@ -96,3 +96,11 @@ Fixpoint repeat_propagate (n : nat) (up : uplog) (s : dstate) (ds : list directi
   | S n' => let r := propagate up s ds in
             r :: repeat_propagate n' up (match r with POk s' => s' | PErr s' => s' end) ds
   end.
+
+(** repetitions with the upstream log possibly extended in between *)
+Fixpoint repeat_propagate_ups (ups : list uplog) (s : dstate) (ds : list directive) : list pres :=
+  match ups with
+  | [] => []
+  | up :: ups' => let r := propagate up s ds in
+                  r :: repeat_propagate_ups ups' (match r with POk s' => s' | PErr s' => s' end) ds
+  end.
